@@ -141,7 +141,9 @@ func (es *ExpressionStatement) WriteTo(cw *CodeWriter) {
 	if es.Expression == nil {
 		return
 	}
+	outer := cw.beginStatement()
 	es.Expression.WriteTo(cw)
+	cw.endStatement(outer)
 	cw.WriteSemi()
 }
 
